@@ -234,6 +234,14 @@ func (w *busWorld) write(a uint32, v byte) (obs int) {
 	w.b.EaWrite(a, v)
 	return 0
 }
+func (w *busWorld) read24(a uint32) (obs int64) {
+	defer func() {
+		if recover() != nil {
+			obs = -1
+		}
+	}()
+	return int64(w.b.EaRead24_wrap(byte(a>>16), uint16(a)))
+}
 func (w *busWorld) dump(s, e uint32, data []byte) (n int) {
 	defer func() {
 		if recover() != nil {
@@ -868,6 +876,34 @@ func (f *busFalsifier) probe(w *busWorld, owner func(uint32) int, sc busScen) {
 		} else if p.Op == "read" && obs != int(w.mems[own].peekByte(w, p.A)) {
 			f.fail("C13.Route", "Route.read-value", sc, fmt.Sprintf("EaRead(%#x) = %d, m%d.Read gives %d", p.A, obs, own, w.mems[own].peekByte(w, p.A)))
 		}
+	case "read24":
+		// the 24-bit read (offset wraps inside the bank) is three single reads: it fails loudly as soon as one of the
+		// three addresses was never attached, otherwise every byte comes from the memory attached last, unmodified address
+		f.evals["Route"]++
+		as := [3]uint32{p.A, p.A&0xff0000 | (p.A+1)&0xffff, p.A&0xff0000 | (p.A+2)&0xffff}
+		hole := false
+		var wantLog []busEv
+		var want int64
+		for k, a := range as {
+			own := owner(a)
+			if own == 0 {
+				hole = true
+				break
+			}
+			wantLog = append(wantLog, busEv{own, 0, a, 0})
+			want |= int64(w.mems[own].peekByte(w, a)) << (8 * uint(k))
+		}
+		n := len(w.log)
+		obs := w.read24(p.A)
+		got := w.log[n:]
+		switch {
+		case hole && obs != -1:
+			f.fail("C13.Route", "Route.unattached-read24", sc, fmt.Sprintf("EaRead24_wrap at %#x touches an unattached address but did not fail loudly: returned %#x, memories saw [%s]", p.A, obs, busEvStr(got)))
+		case !hole && obs == -1:
+			f.fail("C13.Route", "Route.read24", sc, fmt.Sprintf("EaRead24_wrap at %#x panicked although its three addresses are attached", p.A))
+		case !hole && (obs != want || fmt.Sprint(got) != fmt.Sprint(wantLog)):
+			f.fail("C13.Route", "Route.read24", sc, fmt.Sprintf("EaRead24_wrap at %#x = %#x, three single reads give %#x; memories saw [%s], want [%s]", p.A, obs, want, busEvStr(got), busEvStr(wantLog)))
+		}
 	case "dump":
 		f.evals["EaDump"]++
 		// byte-wise reads first (the specification), on the same bus
@@ -997,7 +1033,7 @@ func busCheckCmd(args []string) int {
 				for e := s; e < 64; e++ {
 					ps = append(ps, busOp{Op: "dump", S: s, E: e, Len: int(e-s+1) + 2, Sent: 0xAA})
 				}
-				ps = append(ps, busOp{Op: "read", A: s}, busOp{Op: "write", A: s, V: int(s*7+1) & 0xff})
+				ps = append(ps, busOp{Op: "read", A: s}, busOp{Op: "write", A: s, V: int(s*7+1) & 0xff}, busOp{Op: "read24", A: s})
 			}
 			f.checkAll(mems, h, ps)
 		}
@@ -1044,11 +1080,13 @@ func busCheckCmd(args []string) int {
 			if a > 0xffffff {
 				a = 0xffffff
 			}
-			switch r.n(4) {
+			switch r.n(5) {
 			case 0:
 				ps = append(ps, busOp{Op: "read", A: a})
 			case 1:
 				ps = append(ps, busOp{Op: "write", A: a, V: r.n(256)})
+			case 4:
+				ps = append(ps, busOp{Op: "read24", A: a})
 			default:
 				e := a + uint32(r.n(70))
 				if e > 0xffffff {
